@@ -50,16 +50,20 @@ def context_neighbors(model, R):
     R.check(ok, 'LINKS', nb, nb.node, 'Context._neighbors: Lindig neighbours over the object sets of this context',
             'algorithms.neighbors(objects, Objects=self._Objects)', src(r[0]) if r else '')
     # label form derives from the same generator
-    rets = sorted((n for n in walk(f.body) if isinstance(n, ast.Return)), key=lambda n: n.lineno)
-    lab = [r for r in rets if isinstance(r.value, ast.ListComp)]
-    ok = False
-    if lab:
-        lc = lab[0].value
+    comps = [n for n in walk(f.body) if isinstance(n, (ast.ListComp, ast.GeneratorExp)) and len(n.generators) == 1
+             and isinstance(n.generators[0].iter, ast.Call) and chain(n.generators[0].iter.func) == ['self', '_neighbors']]
+    if len(comps) != 1:
+        R.unknown('LINKS', f, f.node, 'Context.neighbors: label form lists every cover as (extent, intent) labels', f'{len(comps)} comprehensions over self._neighbors(...)')
+    else:
+        lc = comps[0]
         g = lc.generators[0]
-        ok = (isinstance(g.target, ast.Tuple) and len(g.target.elts) == 2 and isinstance(lc.elt, ast.Tuple)
-              and [src(e) for e in lc.elt.elts] == [f'{src(t)}.members()' for t in g.target.elts] and not g.ifs)
-    R.check(ok, 'LINKS', f, lab[0] if lab else f.node, 'Context.neighbors: label form lists every cover as (extent, intent) labels',
-            '[(extent.members(), intent.members()) for extent, intent in self._neighbors(objects)]')
+        shaped = isinstance(g.target, ast.Tuple) and len(g.target.elts) == 2 and isinstance(lc.elt, ast.Tuple) and len(lc.elt.elts) == 2
+        if not shaped:
+            R.unknown('LINKS', f, lc, 'Context.neighbors: label form', src(lc)[:100])
+        else:
+            R.decided([src(e) for e in lc.elt.elts] == [f'{src(t)}.members()' for t in g.target.elts] and not g.ifs, 'LINKS', f, lc,
+                      'Context.neighbors: label form lists every cover as (extent, intent) labels',
+                      '(extent.members(), intent.members()) for extent, intent in self._neighbors(objects)', src(lc)[:140])
 
 
 def run(model, R):
